@@ -1093,6 +1093,19 @@ func genURLCase(r *hx.Rand) urlCaseT {
 	if r.Chance(1, 3) {
 		u.Extra = append(u.Extra, "/other/:z")
 	}
+	// static SIBLINGS at parameter positions (`/users/zzsib/…` next to `/users/:p0/…`): the theorems are about a router
+	// with one route; the real router holds several — no value ever equals the sibling's segment, so the URL must still
+	// route back to the named route (with a value equal to it the static sibling wins: outside the oracle)
+	for i, part := range parts {
+		if strings.HasPrefix(part, ":") && r.Chance(1, 3) {
+			sib := append([]string{}, parts...)
+			sib[i] = "zzsib"
+			if r.Chance(1, 2) {
+				sib = sib[:i+1] // the sibling ends here
+			}
+			u.Extra = append(u.Extra, "/"+strings.Join(sib, "/"))
+		}
+	}
 	if np == 0 && r.Chance(1, 2) {
 		// (only for parameter-less routes: a route WITH parameters and its trailing-slash twin share one tree node —
 		// the second registration replaces the first; a duplicate registration, the routing properties' subject)
